@@ -49,19 +49,18 @@ ORACLE = {
     11: (1, []),
     12: (2, [(208, 'C14-EVID-OTHER-RECORDS')]),
     13: (3, [(205, 'C14-DOSEID-RESET-GROUP'), (206, 'C14-DOSEID-OBS-BETWEEN-DOSES')]),
-    14: (4, [(216, 'C14-EXPAND-EXPLICIT-INDEX'), (211, 'C14-EXPAND-ID-ORDER')]),
+    14: (4, [(222, 'C14-EXPAND-ID-ORDER')]),
     15: (4, []),
     29: (4, []),
     16: (5, [(213, 'C14-TAD-RESET-NEGATIVE')]),
     17: (5, []),
-    18: (5, [(216, 'C14-EXPAND-EXPLICIT-INDEX'), (211, 'C14-TAD-REORDER-ID'), (214, 'C14-TAD-REORDER-TIE')]),
-    19: (5, [(215, 'C14-TAD-ID-DTYPE')]),
-    28: (5, [(205, 'C14-DOSEID-RESET-GROUP'), (206, 'C14-DOSEID-OBS-BETWEEN-DOSES'),
-             (211, 'C14-TAD-REORDER-ID'), (214, 'C14-TAD-REORDER-TIE'), (213, 'C14-TAD-RESET-NEGATIVE')]),
+    18: (5, [(222, 'C14-EXPAND-ID-ORDER')]),
+    19: (5, []),
+    28: (5, [(205, 'C14-DOSEID-RESET-GROUP'), (206, 'C14-DOSEID-OBS-BETWEEN-DOSES'), (213, 'C14-TAD-RESET-NEGATIVE')]),
     20: (6, []), 21: (6, []), 22: (6, []), 31: (6, []),
     23: (7, []), 24: (7, []),
-    25: (8, [(218, 'C14-CMT-UNBOUND')]),
-    26: (9, [(218, 'C14-CMT-UNBOUND'), (219, 'C14-ADMID-EVID4'), (208, 'C14-EVID-OTHER-RECORDS')]),
+    25: (8, []),
+    26: (9, [(208, 'C14-EVID-OTHER-RECORDS')]),
     27: (0, []),
 }
 # input-domain guards (not defects): an oracle failure is also excused when one of these is false
@@ -435,7 +434,7 @@ def observe(spec):
     cnames = odes.compartment_names
     central = odes.central_compartment.name
     mi = '(mkMinfo ' + ct.lst([ct.tup(ct.z(cnames.index(c.name) + 1), ct.z(int(c.doses[0].admid)), ct.boolean(c.name == central))
-                               for c in odes.dosing_compartments]) + ')'
+                               for c in odes.dosing_compartments]) + ' ' + ct.z(cnames.index(central) + 1) + ')'
 
     mdv = labelled(ex, get_mdv(model)); unchanged()
     evid = labelled(ex, get_evid(model)); unchanged()
@@ -643,7 +642,7 @@ def run(ctx):
     ctx.coverage['input_distribution'] = {
         'rows_hist': {str(k): sum(1 for i in infos if i['nrows'] == k) for k in sorted({i['nrows'] for i in infos})},
         'impl_errors': {k: sum(1 for i in infos if k in i['errors']) for k in sorted({k for i in infos for k in i['errors']})},
-        'guard_false': {str(g): count(g) for g in range(201, 222)},
+        'guard_false': {str(g): count(g) for g in range(201, 223)},
         'oracle_tags': {str(t): count(t) for t in sorted(ORACLE)},
         'with_expansion': sum(1 for s in kept if any(t == 'additional' for _, t in s['cols'])),
         'with_event_column': sum(1 for s in kept if any(t == 'event' for _, t in s['cols'])),
